@@ -235,6 +235,7 @@ func (p *Prog) generateOne(fn *ssa.Function, sp *spec.FuncSpec, splits []splitVa
 	vc.noSafety = sp.NoSafety
 	vc.typedPtrs = sp.TypedPtrs
 	vc.wfHeap = sp.WFHeap
+	vc.namedInv = sp.NamedInv
 	vc.reveal = map[string]bool{}
 	for _, r := range sp.Reveal {
 		vc.reveal[r] = true
